@@ -6,8 +6,11 @@ from mc import explore, master, ops, oracles
 from mc.framework import Result
 from mc.props import _std
 
-CFGS = [ops.mk(1, rr='1.09'), ops.mk(2, rr='1.10', xa=True), ops.mk(3, rr='1.12'), ops.mk(3, rr='1.09', xa=True), ops.mk(1, rr='1.12', xa=True), ops.mk(3, rr='1.10')]
-ISO_NAMES = {1: ['N.;1', 'ABCDEFGH.TXT;1'], 2: ['N.;1', 'ABCDEFGH.TXT;1', 'A' * 27 + '.TXT;1'], 3: ['N.;1', 'ABCDEFGH.TXT;1', 'A' * 27 + '.TXT;1']}
+CFGS = [ops.mk(1, rr='1.09'), ops.mk(2, rr='1.10', xa=True), ops.mk(4, rr='1.09'), ops.mk(3, rr='1.12'), ops.mk(3, rr='1.09', xa=True), ops.mk(1, rr='1.12', xa=True), ops.mk(3, rr='1.10'),
+        ops.mk(4, rr='1.12', xa=True)]
+# at level 4 the identifier itself can use up the directory record, so that not even the first NM byte fits
+ISO_NAMES = {1: ['N.;1', 'ABCDEFGH.TXT;1'], 2: ['N.;1', 'ABCDEFGH.TXT;1', 'A' * 27 + '.TXT;1'], 3: ['N.;1', 'ABCDEFGH.TXT;1', 'A' * 27 + '.TXT;1'],
+             4: ['A' * 190, 'N', 'A' * 150]}
 
 
 def sweep_cases(tier):
@@ -57,6 +60,12 @@ def extra_tasks(tier):
         for iso_name in ISO_NAMES[cfg['level']][:(3 if tier == 'thorough' else 1)]:
             for i in range(8):
                 out.append({'extra': True, 'cfg': cfg, 'iso_name': iso_name, 'cases': cases[i::8]})
+    # level 4: every identifier length that leaves 0 .. 40 bytes of the directory record to the Rock Ridge entries
+    for cfg in cfgs:
+        if cfg['level'] == 4:
+            small = [('name', 'r' * k) for k in (1, 5, 50, 150, 250)] + [('target', 't' * k) for k in (1, 60, 200)] + [('both', ('n' * 40, 'a' * 130 + '/bb'))]
+            for L in range(150, 194):
+                out.append({'extra': True, 'cfg': cfg, 'iso_name': 'A' * L, 'cases': small})
     # directory chains of depth 1..17 with a file and a symlink at each level, with and without set_relocated_name
     # ... and with directory names long enough that NM / CL / PL / RE entries move into the continuation area
     for cfg in cfgs:
